@@ -226,6 +226,8 @@ func (dlErr) Error() string   { return context.DeadlineExceeded.Error() }
 func (dlErr) Timeout() bool   { return true }
 func (dlErr) Temporary() bool { return true }
 
+var textOnly = map[string]bool{}
+
 func main() {
 	tier := os.Getenv("VERIF_TIER")
 	if tier == "" {
@@ -252,6 +254,15 @@ func main() {
 	stmts = append(stmts, longInput(110))
 	// inputs without a statement: the statement loop has nothing to iterate over
 	stmts = append(stmts, "", " \n\t ", "-- only a comment\n", "/* only a comment */", ";", " ; ; ")
+	// characters in front of and behind a statement that an input layer may treat specially (byte-order mark,
+	// no-break and zero-width space, form feed, vertical tab, NUL): whatever the context-free call makes of them,
+	// the context-aware call with a context that never fires makes the same
+	for _, pad := range []string{"\ufeff", "\u00a0", "\u200b", "\f", "\v", "\x00", "\ufeff\ufeff", "\u2028"} {
+		for _, t := range []string{pad + "SELECT a FROM t WHERE a = 1", "SELECT a FROM t WHERE a = 1" + pad, pad + "-- c\nSELECT 1"} {
+			stmts = append(stmts, t)
+			textOnly[t] = true // for the entry points that take text (the others need a token slice)
+		}
+	}
 	// a sample of Select.tla's statement forms (every named form, sampled clause combinations, ORDER BY lists,
 	// tails and window specifications)
 	model := gram.FormTexts(run)
@@ -300,6 +311,9 @@ func main() {
 	}
 	for _, e := range entries {
 		for _, sql := range stmts {
+			if strings.HasPrefix(e.name, "Parser.") && textOnly[sql] {
+				continue
+			}
 			plainRes, _, _ := e.plain(sql)
 			// uncancelled run under the counting context
 			c0 := &cctx{Context: context.Background(), fire: 1 << 50, err: context.Canceled}
